@@ -1,3 +1,5 @@
+import FM.Generated.Patterns
+import FM.Model.PatternBaseline
 import FM.Lemmas.Quotes
 /-
   C08 — Smart quotes only swap individual quote characters, and only in prose.
@@ -92,5 +94,10 @@ span that overlaps a double-quoted one hides the latter from the first pass only
 theorem Q_IDEM_false :
     smartQuotes asciiWord (smartQuotes asciiWord "'a \"b' c\"".toList)
       ≠ smartQuotes asciiWord "'a \"b' c\"".toList := by decide
+
+
+/-- PATTERNS_AS_MODELLED: the regular expressions of the source files this property's models were written against
+(regenerated from /repo's working tree on every run by harness/translate_patterns.py) are the recorded ones. -/
+theorem PATTERNS_AS_MODELLED : FM.Gen.patterns_C08 = FM.Baseline.patterns_C08 := by decide
 
 end FM.C08
